@@ -49,14 +49,33 @@ fn spec_native(a: &[f64]) -> (u8, bool) {
     }
 }
 
-/// (length, share index, share count): each worker re-explores (cheap, no solver) and decides its share of paths
-fn check(item: &(usize, usize, usize)) -> Report {
-    let (n, share, shares) = *item;
+/// background of a long vector in which only a window of consecutive elements is symbolic
+#[derive(Clone, Copy, Debug, PartialEq)]
+enum Bg {
+    /// every element an unconstrained IEEE double
+    None,
+    /// concrete strictly rising / strictly falling / rising with ties background, symbolic window [pos, pos+width)
+    Rising(usize, usize),
+    Falling(usize, usize),
+    RisingTies(usize, usize),
+}
+
+/// (length, share index, share count, background): each worker re-explores (cheap, no solver) and decides its share of paths
+fn check(item: &(usize, usize, usize, Bg)) -> Report {
+    let (n, share, shares, bg) = *item;
     with_ctx(|c| c.reset_all());
     with_ctx(|c| c.mode = Mode::O);
     let mut chk = Chk::new(Mode::O, 20_000);
-    chk.begin_config(&format!("monotonic_prop, length {n}, path share {share}/{shares}"));
-    let x: Vec<Sym> = (0..n).map(|i| Sym::var(&format!("x{i}"))).collect();
+    chk.begin_config(&format!("monotonic_prop, length {n}, path share {share}/{shares}, {bg:?}"));
+    let x: Vec<Sym> = (0..n)
+        .map(|i| match bg {
+            Bg::None => Sym::var(&format!("x{i}")),
+            Bg::Rising(p, w) | Bg::Falling(p, w) | Bg::RisingTies(p, w) if i >= p && i < p + w => Sym::var(&format!("x{i}")),
+            Bg::Rising(..) => Sym::int(3 * i as i128 - 7),
+            Bg::Falling(..) => Sym::int(100 - 2 * i as i128),
+            Bg::RisingTies(..) => Sym::int(((i + 1) / 2) as i128),
+        })
+        .collect();
     let mut ecfg = ExploreCfg::new(Mode::O, 1);
     ecfg.prune = false; // relations of different consecutive pairs are independent: the solver filters below
     ecfg.max_paths = 400_000;
@@ -105,7 +124,7 @@ fn check(item: &(usize, usize, usize)) -> Report {
                 a.push(format!("(not (and (=> {nan_free} {}) (=> (not {nan_free}) {})))", def(*c), c.0 != 1));
                 if let Verdict::Cex(vals) = chk.must_unsat("classification", &format!("path {pi}: returned class {:?}", c), &a, &all_vars) {
                     let m = crate::c05::model_f64(&vals);
-                    let xs: Vec<f64> = (0..n).map(|k| *m.get(&format!("x{k}")).unwrap_or(&0.0)).collect();
+                    let xs: Vec<f64> = (0..n).map(|k| x[k].konst().map(|r| r.to_f64()).unwrap_or_else(|| *m.get(&format!("x{k}")).unwrap_or(&0.0))).collect();
                     let nat = native_class(&xs);
                     let has_nan = xs.iter().any(|v| v.is_nan());
                     let bad = match &nat {
@@ -125,13 +144,13 @@ fn check(item: &(usize, usize, usize)) -> Report {
                 let (ans, vals) = chk.model(&pcs, &all_vars);
                 if matches!(ans, crate::engine::smt::Answer::Sat) || n == 0 {
                     let m = crate::c05::model_f64(&vals);
-                    let xs: Vec<f64> = (0..n).map(|k| *m.get(&format!("x{k}")).unwrap_or(&0.0)).collect();
+                    let xs: Vec<f64> = (0..n).map(|k| x[k].konst().map(|r| r.to_f64()).unwrap_or_else(|| *m.get(&format!("x{k}")).unwrap_or(&0.0))).collect();
                     chk.finding("C12:panic", &format!("length {n}: monotonic_prop panics: {msg}"), Json::obj().with("vector", format!("{xs:?}")), Some(native_class(&xs).is_err()));
                 }
             }
         }
     }
-    if share == 0 && n >= 3 {
+    if share == 0 && n >= 3 && bg == Bg::None {
         // vacuity: all five classes occur among the paths; canary: a wrong definition (strict for non-strict) is refuted
         let (all_paths_classes, _) = (paths.iter().filter_map(|p| p.result.as_ref().ok()).collect::<std::collections::BTreeSet<_>>(), 0);
         chk.rep.witnesses_expected += 5;
@@ -155,7 +174,23 @@ pub fn run(args: &Args) -> Report {
     for n in 0..=nmax {
         let shares = if n >= 11 { 16 } else if n >= 8 { 8 } else { 1 };
         for s in 0..shares {
-            items.push((n, s, shares));
+            items.push((n, s, shares, Bg::None));
+        }
+    }
+    // long vectors (block-wise or vectorised scans only go wrong beyond a block): concrete rising / falling / tied
+    // backgrounds with a window of 3 unconstrained IEEE elements at every position
+    let longs: &[usize] = if args.thorough() { &[17, 18, 33, 34, 65, 66, 129] } else { &[17, 18, 33, 34, 65] };
+    for &n in longs {
+        for p in 0..n - 2 {
+            let bg = match (p + n) % 3 {
+                0 => Bg::Rising(p, 3),
+                1 => Bg::Falling(p, 3),
+                _ => Bg::RisingTies(p, 3),
+            };
+            items.push((n, 0, 1, bg));
+            if n <= 34 {
+                items.push((n, 0, 1, Bg::Rising(p, 3)));
+            }
         }
     }
     let mut rep = par_run(items, args.threads, check);
@@ -163,6 +198,7 @@ pub fn run(args: &Args) -> Report {
     rep.functions.insert("vector_extensions::MonotonicState::update".into());
     rep.functions.insert("vector_extensions::MonotonicState::finish".into());
     rep.bounds.push(format!("engine S: vector length 0..{nmax}, every element an unconstrained IEEE double (NaN at any position is a model); the explored paths are the sequences of consecutive-pair relations the state machine distinguishes"));
+    rep.bounds.push(format!("engine S, long vectors: lengths {longs:?}, a window of 3 consecutive unconstrained IEEE elements at every position of a concrete strictly rising / strictly falling / rising-with-ties background"));
     rep.outside.push("lengths above the bound; element types other than f64 in engine S (f32, i32, i64 and strided / reversed views are covered by the engine K harnesses)".into());
     rep.assumptions.insert("mode O: comparisons bit-precise IEEE".into());
     rep
